@@ -51,6 +51,7 @@ import (
 	"github.com/ExocoreNetwork/exocore/utils"
 	assetskeeper "github.com/ExocoreNetwork/exocore/x/assets/keeper"
 	assetstypes "github.com/ExocoreNetwork/exocore/x/assets/types"
+	avstypes "github.com/ExocoreNetwork/exocore/x/avs/types"
 	delegationtypes "github.com/ExocoreNetwork/exocore/x/delegation/types"
 	exoevmtypes "github.com/ExocoreNetwork/exocore/x/evm/types"
 )
@@ -81,6 +82,8 @@ type evmDriver struct {
 	fcAddr  sdk.AccAddress
 	depABI  abi.ABI
 	dlgABI  abi.ABI
+	avsABI  abi.ABI
+	avsSeq  int
 	lzNonce uint64
 	lastBatch []builtTx // messages of the latest Batch event (for ReplayLast)
 	tracked map[string]bool // hex(address bytes) of every projected party
@@ -198,6 +201,36 @@ func initNew(mode string) []byte {
 	return a.bytes()
 }
 
+// creation payload of "newp" transactions: the constructor copies `input` (appended behind the code) to memory,
+// CALLs the precompile with it (32 bytes of return data at 0x1000), REVERTs by itself when the call failed or
+// did not return true, and then, by mode: returns a one-byte runtime ("ok"), REVERTs ("rev") or loops ("oog")
+func initNewP(precompile common.Address, input []byte, mode string) []byte {
+	build := func(off int) []byte {
+		a := newAsm()
+		n := len(input)
+		a.push2(n).push2(off).push1(0).op(opCODECOPY)
+		a.push1(0x20).push2(0x1000).push2(n).push1(0).push1(0).op(0x73).op(precompile.Bytes()...).op(opGAS).op(opCALL)
+		a.op(opISZERO).pushL("fail").op(opJUMPI)
+		a.push2(0x1000).op(opMLOAD).push1(1).op(opEQ).op(opISZERO).pushL("fail").op(opJUMPI)
+		switch mode {
+		case "rev":
+			a.push1(0).push1(0).op(opREVERT)
+		case "oog":
+			a.label("l").pushL("l").op(opJUMP)
+		default:
+			a.push1(1).push2(0x2000).op(opRETURN)
+		}
+		a.label("fail").push1(0).push1(0).op(opREVERT)
+		return a.bytes()
+	}
+	code := build(len(build(0)))
+	return append(code, input...)
+}
+
+const registerAVSABI = `[{"inputs": [{"internalType": "address", "name": "sender", "type": "address"}, {"internalType": "string", "name": "avsName", "type": "string"}, {"internalType": "uint64", "name": "minStakeAmount", "type": "uint64"}, {"internalType": "address", "name": "taskAddr", "type": "address"}, {"internalType": "address", "name": "slashAddr", "type": "address"}, {"internalType": "address", "name": "rewardAddr", "type": "address"}, {"internalType": "string[]", "name": "avsOwnerAddress", "type": "string[]"}, {"internalType": "string[]", "name": "assetIds", "type": "string[]"}, {"internalType": "uint64", "name": "avsUnbondingPeriod", "type": "uint64"}, {"internalType": "uint64", "name": "minSelfDelegation", "type": "uint64"}, {"internalType": "string", "name": "epochIdentifier", "type": "string"}, {"internalType": "uint64[]", "name": "params", "type": "uint64[]"}], "name": "registerAVS", "outputs": [{"internalType": "bool", "name": "success", "type": "bool"}], "stateMutability": "nonpayable", "type": "function"}]`
+
+var precompileAVS = common.HexToAddress("0x0000000000000000000000000000000000000901")
+
 // ---------------------------------------------------------------------------------------------
 
 func runEvmTx(args []string) int {
@@ -274,6 +307,8 @@ func newEvmDriver(wc EvmWorldCfg, seed int64) *evmDriver {
 	d.depABI, err = abi.JSON(strings.NewReader(depositABI))
 	must(err)
 	d.dlgABI, err = abi.JSON(strings.NewReader(delegationABI))
+	must(err)
+	d.avsABI, err = abi.JSON(strings.NewReader(registerAVSABI))
 	must(err)
 	d.setup()
 	for _, a := range d.addr {
@@ -498,11 +533,17 @@ func (d *evmDriver) project() map[string]interface{} {
 		}
 	}
 	return map[string]interface{}{
-		"wd": wd, "dl": dl,
+		"wd": wd, "dl": dl, "avs": d.avsCount(ctx),
 		"nonce": nonce, "bal": bal, "fc": NB(d.bal(ctx, d.fcAddr)), "sink": NB(sink),
 		"bg": deliverCtx(app.BaseApp).BlockGasMeter().GasConsumed(), "bf": NB(d.baseFee(ctx)),
 		"stor": stor, "dep": NI(dep), "h": d.hdr.Height,
 	}
+}
+
+func (d *evmDriver) avsCount(ctx sdk.Context) int {
+	n := 0
+	d.w.App.AVSManagerKeeper.IterateAVSInfo(ctx, func(_ int64, _ avstypes.AVSInfo) bool { n++; return false })
+	return n
 }
 
 // one SHA-256 per persistent module store over its sorted (key, value) pairs; entries whose key
@@ -689,6 +730,15 @@ func (d *evmDriver) buildTx(e BEvent, nonceAhead map[string]uint64) builtTx {
 	switch to {
 	case "new":
 		data = initNew(mode)
+	case "newp":
+		// the new contract registers ITSELF as an AVS from its constructor (owner = the tx sender); unique name / task address
+		d.avsSeq++
+		in, err := d.avsABI.Pack("registerAVS", from, fmt.Sprintf("evmtxAvs%d", d.avsSeq), uint64(3),
+			common.BytesToAddress(h256(fmt.Sprintf("evmtx-task-%d", d.avsSeq))[:20]),
+			common.HexToAddress("0xDF907c29719154eb9872f021d21CAE6E5025d7aB"), common.HexToAddress("0xDF907c29719154eb9872f021d21CAE6E5025d7aB"),
+			[]string{sdk.AccAddress(from.Bytes()).String()}, []string{d.w.AssetID["lst"]}, uint64(3), uint64(3), "day", []uint64{2, 3, 4, 4})
+		must(err)
+		data = initNewP(precompileAVS, in, mode)
 	case "c":
 		a := d.addr["c"]
 		toAddr = &a
@@ -812,7 +862,7 @@ func (d *evmDriver) buildTx(e BEvent, nonceAhead map[string]uint64) builtTx {
 		args.GasTipCap = tip
 		args.Accesses = accesses
 	}
-	if to == "new" {
+	if to == "new" || to == "newp" {
 		// a rejected attempt leaves the nonce unchanged, so the same address can come up again: count it once
 		if na := crypto.CreateAddress(from, nonce); !d.tracked[hex.EncodeToString(na.Bytes())] {
 			d.created = append(d.created, na)
